@@ -199,31 +199,52 @@ def _arm_table(h, scrut_ty_re):
     return out
 
 
+def _conv_table(C, h, src_enum, tgt_rx):
+    """conversion table of a function, read from the path conditions of the constructor sites: {source variant (of the enum
+    whose last path segment is src_enum, also nested in Some(..)/Ok(..)): sorted labels `Enum::Variant` of the target
+    constructors (paths matching tgt_rx) built under it}. Works for match arms, let-matches with early returns, helpers."""
+    S = sem.Sem(C, h)
+    rx = re.compile(tgt_rx)
+    out = {}
+    for x in S.sites():
+        n = x.node
+        d = None
+        if n.get("k") == "Path":
+            r = n["res"]
+            if r.get("r") == "def" and str(r.get("dk", "")).startswith("Ctor"):
+                d = norm(r["path"])
+        elif n.get("k") == "Call" and str(n.get("callee_kind", "")).startswith("Ctor"):
+            d = norm(n.get("callee", ""))
+        if not d or not rx.search(d):
+            continue
+        srcs = sem.nested_variants(x.pc, lambda v: True, src_enum)
+        for sv in (srcs or {"*"}):
+            out.setdefault(sv, set()).add(sem.short_variant(d))
+    return {k: sorted(v) for k, v in out.items()}, S
+
+
+PRIMS = ("Bool", "Bytes", "Int", "Ip")
+
+
 def rule_inverse(F, R):
     rule = "R15-inverse"
     E = F.engine
-    h = E.hir("types::CompoundType::from_type") or E.hir("types::CompoundType::try_from_type")
-    hs = [x for x in (E.hir("types::CompoundType::try_from_type"), E.hir("types::CompoundType::from_type")) if x]
-    tbl = {}
-    for x in hs:
-        t = _arm_table(x, r"^types::Type$")
-        if len(t) >= 6:
-            tbl = t
-            h = x
-    if not tbl:
-        R.cannot(rule, "types::CompoundType::from_type", "arm table not found")
+    h = E.hir("types::CompoundType::try_from_type") or E.hir("types::CompoundType::from_type")
+    if not h:
+        R.cannot(rule, "types::CompoundType::from_type", "anchor not found")
     else:
-        prim_ok = all(tbl.get(p) and tbl[p][0] == "Some" and tbl[p][2] == [p] for p in ("Bool", "Bytes", "Int", "Ip"))
-        lay_ok = tbl.get("Array") == ("push", ["Array"]) and tbl.get("Map") == ("push", ["Map"])
-        R.check(prim_ok and lay_ok, rule, norm(h["path"]), "Type -> CompoundType arm table", "extracted %s" % tbl, h["span"])
+        t, _ = _conv_table(E, h, "Type", r"types::(PrimitiveType|Layer)::\w+$")
+        want = {p: ["PrimitiveType::" + p] for p in PRIMS}
+        want.update({"Array": ["Layer::Array"], "Map": ["Layer::Map"]})
+        R.check(t == want, rule, norm(h["path"]), "Type -> CompoundType arm table", "extracted %s" % t, h["span"])
     h = E.hir("types::CompoundType::into_type")
     if not h:
         R.cannot(rule, "types::CompoundType::into_type", "anchor not found")
     else:
-        t1 = _arm_table(h, r"Option<types::Layer>")
-        t2 = _arm_table(h, r"^types::PrimitiveType$")
-        ok1 = t1.get("Array", (None,))[0] == "Array" and t1.get("Map", (None,))[0] == "Map"
-        ok2 = all(t2.get(p) == (p,) for p in ("Bool", "Bytes", "Int", "Ip"))
+        t1, _ = _conv_table(E, h, "Layer", r"types::Type::(Array|Map)$")
+        t2, _ = _conv_table(E, h, "PrimitiveType", r"types::Type::(Bool|Bytes|Int|Ip)$")
+        ok1 = t1 == {"Array": ["Type::Array"], "Map": ["Type::Map"]}
+        ok2 = t2 == {p: ["Type::" + p] for p in PRIMS}
         R.check(ok1 and ok2, rule, norm(h["path"]), "CompoundType -> Type arm table is the inverse",
                 "layers %s primitives %s" % (t1, t2), h["span"])
     # C side
@@ -233,14 +254,25 @@ def rule_inverse(F, R):
     if not hc or not ht:
         R.cannot(rule, "CType <-> Type conversions", "anchors not found")
         return
-    t = _arm_table(hc, r"types::Type$")
-    prim_ok = all(t.get(p) == ("struct", p, 0, 0) for p in ("Bool", "Bytes", "Int", "Ip"))
-    lay_ok = t.get("Array") == ("push", ["Array"]) and t.get("Map") == ("push", ["Map"])
-    R.check(prim_ok and lay_ok, rule, norm(hc["path"]), "Type -> CType arm table", "extracted %s" % t, hc["span"])
-    t1 = _arm_table(ht, r"Option<Layer>")
-    t2 = _arm_table(ht, r"^CPrimitiveType$")
-    ok1 = t1.get("Array", (None,))[0] == "Array" and t1.get("Map", (None,))[0] == "Map"
-    ok2 = all(t2.get(p) == (p,) for p in ("Bool", "Bytes", "Int", "Ip"))
+    t, S = _conv_table(X, hc, "Type", r"(CPrimitiveType|Layer)::\w+$")
+    want = {p: ["CPrimitiveType::" + p] for p in PRIMS}
+    want.update({"Array": ["Layer::Array"], "Map": ["Layer::Map"]})
+    # a primitive type is the bare CType { len: 0, layers: 0, primitive }
+    bare = set()
+    bare_ok = True
+    for x in S.sites():
+        n = x.node
+        if n.get("k") == "Struct" and last_seg(norm(n["res"].get("path", ""))) in ("CType", "Self") and "CType" in norm(n.get("ty", "")):
+            fl = {f["name"]: f["e"] for f in n["fields"]}
+            srcs = sem.nested_variants(x.pc, lambda v: True, "Type") or {"*"}
+            bare |= srcs
+            bare_ok = bare_ok and lit_value(fl.get("len", {})) == 0 and lit_value(fl.get("layers", {})) == 0
+    R.check(t == want and bare == set(PRIMS) and bare_ok, rule, norm(hc["path"]), "Type -> CType arm table",
+            "extracted %s; bare CType literal for %s (len/layers zero: %s)" % (t, sorted(bare), bare_ok), hc["span"])
+    t1, _ = _conv_table(X, ht, "Layer", r"types::Type::(Array|Map)$")
+    t2, _ = _conv_table(X, ht, "CPrimitiveType", r"types::Type::(Bool|Bytes|Int|Ip)$")
+    ok1 = t1 == {"Array": ["Type::Array"], "Map": ["Type::Map"]}
+    ok2 = t2 == {p: ["Type::" + p] for p in PRIMS}
     R.check(ok1 and ok2, rule, norm(ht["path"]), "CType -> Type arm table is the inverse", "layers %s primitives %s" % (t1, t2), ht["span"])
     # the primitive codes are distinct
     a = X.adt("CPrimitiveType")
